@@ -50,16 +50,60 @@ logging.getLogger("basyx").setLevel(logging.CRITICAL + 1)
 
 # ------------------------------------------------------------------ documents
 
+# members that serialise a Python set of objects whose hash depends on memory addresses (Reference hashes its
+# class object, ValueReferencePair has the default hash): the writers emit them in an order that differs from
+# process to process.  The documents are test inputs, so the order is fixed here to keep a run reproducible.
+SET_MEMBERS = ("isCaseOf", "refersTo", "specificAssetIds", "valueReferencePairs")
+
+
+def _norm_json(v, top=True):
+    if isinstance(v, dict):
+        for k, x in v.items():
+            _norm_json(x, False)
+            if isinstance(x, list) and (k in SET_MEMBERS or (k == "submodels" and not top)):
+                x.sort(key=lambda e: json.dumps(e, sort_keys=True))
+            elif isinstance(x, list) and x and all(isinstance(e, dict) and "idShort" in e for e in x) and not top:
+                # a namespace (submodelElements, statements, annotations, collection value): the examples build some
+                # of them from Python sets of objects, whose order differs from process to process
+                x.sort(key=lambda e: str(e["idShort"]))
+    elif isinstance(v, list):
+        for x in v:
+            _norm_json(x, False)
+
+
+def _norm_xml(root):
+    for el in list(root.iter()):
+        name = _lname(el)
+        if name in SET_MEMBERS or (name == "submodels" and el.getparent() is not None
+                                   and _lname(el.getparent()) == "assetAdministrationShell"):
+            kids = sorted(el, key=lambda e: etree.tostring(e))
+            for k in kids:
+                el.remove(k)
+            for k in kids:
+                el.append(k)
+        elif name in ("submodelElements", "statements", "annotations", "value") and len(el) > 1 \
+                and all(k.find(NS + "idShort") is not None for k in el):
+            kids = sorted(el, key=lambda e: e.find(NS + "idShort").text or "")
+            for k in kids:
+                el.remove(k)
+            for k in kids:
+                el.append(k)
+
+
 def write_json(store):
     b = io.StringIO()
     write_aas_json_file(b, store)
-    return json.loads(b.getvalue())
+    d = json.loads(b.getvalue())
+    _norm_json(d)
+    return d
 
 
 def write_xml(store):
     b = io.BytesIO()
     write_aas_xml_file(b, store)
-    return etree.fromstring(b.getvalue(), etree.XMLParser(remove_blank_text=True))
+    root = etree.fromstring(b.getvalue(), etree.XMLParser(remove_blank_text=True))
+    _norm_xml(root)
+    return root
 
 
 def json_items(doc):
